@@ -127,6 +127,30 @@ def callshape(rep, pid: str) -> int:
             defs = _local_and_module_defs(ch["mod"], ch["encl"])
             encl_name = getattr(ch["encl"], "name", "<module>")
             for e in ch["elts"]:
+                if isinstance(e, ast.Attribute) and isinstance(e.value, ast.Name) and e.value.id == "self":
+                    # bound method of the enclosing class
+                    meth = None
+                    for cls in ast.walk(ch["mod"]):
+                        if isinstance(cls, ast.ClassDef) and any(x is ch["encl"] for x in ast.walk(cls)):
+                            for m in cls.body:
+                                if isinstance(m, ast.FunctionDef) and m.name == e.attr:
+                                    meth = m
+                    if meth is None or ch["nargs"] is None:
+                        rep.assume(f"callshape {relpath}:{ch['lineno']}: method `self.{e.attr}` not resolved; not checked")
+                        continue
+                    is_static = any(isinstance(d, ast.Name) and d.id == "staticmethod" for d in meth.decorator_list)
+                    ok, why = _accepts(meth, ch["nargs"] + (0 if is_static else 1))
+                    n += 1
+                    name = f"callshape@{encl_name}:self.{e.attr}"
+                    rep.obligation(name, "call-shape", f"{relpath}::{encl_name}", "proved" if ok else "refuted", "ast", 0.0,
+                                   f"self.{e.attr} is called with {ch['nargs']} positional arguments")
+                    if not ok:
+                        rep.violation(f"callshape:{encl_name}:self.{e.attr}",
+                                      f"{relpath}:{meth.lineno}: `self.{e.attr}` {why} (incl. self) by the dispatch chain at line {ch['lineno']}",
+                                      dict(obligation=name, kind="call-shape", file=relpath, chain_line=ch["lineno"],
+                                           callee=e.attr, callee_line=meth.lineno, reason=why,
+                                           verifier_output=f"arity check on the AST: {why}"), no_failing_input=True)
+                    continue
                 if not isinstance(e, ast.Name):
                     rep.assume(f"callshape {relpath}:{ch['lineno']}: chain element `{ast.unparse(e)}` is not a plain name; not checked")
                     continue
